@@ -96,6 +96,16 @@ fn pick_or<'a>(rng: &mut Rng, xs: &'a [&'static str], fallback: &'a [&'static st
 /// A plausible spelled number as a word sequence (not necessarily valid: validity is the
 /// library's business, the simulator only needs in-flight parser state).
 pub fn gen_number_phrase(rng: &mut Rng, p: &Pool, out: &mut Vec<&'static str>) {
+    if rng.chance(1, 5) {
+        // two or three arbitrary words of the harvested vocabulary in a row (specific neighbours)
+        let v = crate::vocab::vocab(lang_index(p));
+        if !v.is_empty() {
+            for _ in 0..rng.range(2, 3) {
+                out.push(rng.word(v));
+            }
+            return;
+        }
+    }
     match rng.below(8) {
         0 => {
             // run of zeros then a small number
@@ -336,6 +346,9 @@ pub fn gen_stream(rng: &mut Rng, p: &Pool, cfg: &GenCfg, target_len: usize) -> V
             if rng.chance(1, 8) {
                 // a very long display form (e.g. markup kept on the token)
                 format!("{}{}", text, "·".repeat(rng.range(30, 140)))
+            } else if rng.chance(1, 6) {
+                // a display form that is not the same word at all (translation, digits, symbol)
+                rng.word(&["twenty", "vingt", "zwanzig", "20", "and", "et", "und", "%", "N°", "ok", "-x-", "o"]).to_string()
             } else {
                 format!("{}{}", text, rng.word(&[",", ".", "!", "…", " ", "’s", ")"]))
             }
